@@ -519,6 +519,13 @@ def run_case(ctx, repo, case):
             r1 = recgen.build(repo, d1)
             pts1 = consume(r1, 1000)
             end = pts3[-1] if pts3 else None
+            if end is not None and R.tp_is_integral(end):
+                # the given end spelled in the other offset / representation
+                # (an exact interval: the series does not depend on it)
+                end = repo.tp(gen.tp_from_instant(
+                    __import__("random").Random(n), mode,
+                    int(R.tp_instant(mode, end)), rep=case["second_rep"],
+                    offset=tuple(case["second_off"]), allow_2400=False))
             r4 = repo.TimeRecurrence(repetitions=n, end_point=end,
                                      duration=repo.dur(desc["dur"]))
             pts4 = consume(r4, 1000)
@@ -568,6 +575,26 @@ def workload(ctx, repo):
             case = {"op": "iterate", "desc": desc}
             ctx.case = case
             run_case(ctx, repo, case)
+    # the three notations with spellings 26 hours of offset apart (the local
+    # dates of one instant are then up to two days apart)
+    if ctx.worker == 0:
+        for mode in R.MODES:
+            for hh, dur in ((0, {"hours": 1}), (1, {"minutes": 30}),
+                            (23, {"hours": 12}), (11, {"days": 1})):
+                for a_off, b_off in (((14, 0), (-12, 0)), ((-12, 0), (14, 0)),
+                                     ((99, 0), (-99, 0))):
+                    start = gen.date_kwargs(mode, "cal", R.ymd_to_rd(
+                        mode, 2020, 1, 3))
+                    start.update({"hour_of_day": hh, "minute_of_hour": 30,
+                                  "second_of_minute": 0})
+                    start.update(gen.zone_kwargs(a_off))
+                    desc = {"mode": mode, "fmt": 3, "reps": 3,
+                            "start": start, "dur": dur}
+                    case = {"op": "three", "desc": desc, "second_rep": "cal",
+                            "second_off": list(b_off)}
+                    ctx.case = case
+                    ctx.ev("cases.far-offset-notations")
+                    run_case(ctx, repo, case)
     for k in range(n // 20):
         # intervals far below a second (binary fractions: exact in floats)
         mode = R.MODES[k % 4] if k % 2 else "gregorian"
